@@ -62,6 +62,7 @@ const (
 	sfForeignDest   = 1
 	sfInvalidOrigin = 2
 	sfExpiredKey    = 3
+	sfNonUTF8Body   = 4 // O signs and sends a JSON body that is not UTF-8
 )
 
 var senderNames = []string{"direct", "client", "client_api"}
@@ -98,6 +99,7 @@ type sce struct {
 	fet *ledgerFetcher
 	ver *world.Verifier
 
+	skew       time.Duration // D's `now` argument minus D's clock
 	signed     signedEntry
 	cbCalls    int
 	deliveries []*delivery
@@ -138,7 +140,10 @@ func body(r *sim.Run) {
 	s.wire = t.Bool()
 	s.callback = t.Bool()
 	s.vmode = t.Weighted([]int{7, 3})
-	senderFault := t.Weighted([]int{16, 1, 1, 1})
+	senderFault := t.Weighted([]int{16, 1, 1, 1, 1})
+	if senderFault == sfNonUTF8Body && s.senderMode == sendAPI {
+		s.senderMode = sendClient
+	}
 	verifrt.SetSalt(uint64(t.Intn(4)))
 
 	idx := pickDistinct(t, len(validNames), 6)
@@ -222,6 +227,10 @@ func body(r *sim.Run) {
 		s.ver.Fail = errors.New("sim: verifier unavailable")
 		vdesc = "ledger(failing)"
 	}
+	s.skew = []time.Duration{0, 8 * dayMS, 6 * dayMS, -time.Hour}[t.Weighted([]int{14, 1, 1, 1})]
+	if s.skew != 0 {
+		vdesc += fmt.Sprintf(" now_argument_skew=%v", s.skew)
+	}
 	time.Sleep(sim.Pick(t, gaps))
 
 	// ---- the request ---------------------------------------------------------
@@ -235,7 +244,12 @@ func body(r *sim.Run) {
 	case sfInvalidOrigin:
 		s.senderMark = &mark{class: fault, kind: "invalid_origin_signed", oracle: "refuse_invalid_origin", codes: []int{400}}
 	case sfExpiredKey:
-		s.senderMark = &mark{class: fault, kind: "signed_with_expired_key", oracle: "refuse_key_validity", codes: []int{401}}
+		// no unconditional mark: whether this must be refused follows from the
+		// key model at the receipt time D states (keyExpectation)
+		s.envEvents = append(s.envEvents, "signed_with_expired_key")
+		r.Fault("signed_with_expired_key")
+	case sfNonUTF8Body:
+		s.senderMark = &mark{class: fault, kind: "non_utf8_body_signed", oracle: "refuse_body_format", codes: []int{400}}
 	}
 	for _, k := range signers {
 		sg.keyIDs = append(sg.keyIDs, k.ID)
@@ -266,6 +280,10 @@ func body(r *sim.Run) {
 			sg.hasBody = true
 			sg.body = genBody(t)
 		}
+		if senderFault == sfNonUTF8Body {
+			sg.hasBody = true
+			sg.body = []byte(sim.Pick(t, []string{"{\"a\":\"\xff\"}", "{\"a\":\"caf\xe9\"}", "[\"\xc0\xaf\"]", "{\"k\xfe\":1}", "\"\xed\xa0\x80\""}))
+		}
 		originArg := spec.ServerName(oName)
 		if t.Chance(200) {
 			originArg = "" // Sign fills it in
@@ -284,13 +302,17 @@ func body(r *sim.Run) {
 		if err == nil {
 			req, err = fr.HTTPRequest()
 		}
-		r.Logf("t=%v O signs %s %s origin=%q destination=%q keys=%v body=%s -> err=%v", r.Now(), sg.method, sg.uri, sg.origin, sg.dest, sg.keyIDs, string(sg.body), err)
+		r.Logf("t=%v O signs %s %s origin=%q destination=%q keys=%v body=%q -> err=%v", r.Now(), sg.method, sg.uri, sg.origin, sg.dest, sg.keyIDs, string(sg.body), err)
 		if err != nil {
 			// Every generated input is inside the property's domain (valid
 			// method token, a URI that survives net/url, JSON content, names
 			// safe in a quoted-string), except a deliberately invalid origin.
 			if senderFault == sfInvalidOrigin {
 				r.Probe("sender_refused_invalid_origin")
+				return
+			}
+			if senderFault == sfNonUTF8Body {
+				r.Probe("sender_refused_non_utf8_body")
 				return
 			}
 			if sg.hasBody && keyNeedsEscape(sg.body) {
@@ -300,7 +322,7 @@ func body(r *sim.Run) {
 			r.Violate(P, "complete", "sender_error", "O could not build/sign %s %s: %v", sg.method, sg.uri, err)
 			return
 		}
-		if sg.hasBody && !strictSameJSON(sg.body, fr.Content()) {
+		if sg.hasBody && senderFault != sfNonUTF8Body && !strictSameJSON(sg.body, fr.Content()) {
 			tag := "content_rewritten"
 			if keyNeedsEscape(sg.body) {
 				tag += ":object_key_needs_escape"
@@ -425,7 +447,7 @@ func (s *sce) RoundTrip(req *http.Request) (*http.Response, error) {
 			r.Probe("api_request_line_unexpected")
 		}
 		sg.uri = f.uri
-		r.Logf("t=%v O's client sends %s %s body=%s", r.Now(), f.method, f.uri, string(f.body))
+		r.Logf("t=%v O's client sends %s %s body=%q", r.Now(), f.method, f.uri, string(f.body))
 	}
 	for _, h := range f.hdr {
 		r.Logf("  header %s: %s", h.name, h.val)
@@ -495,7 +517,8 @@ func (s *sce) RoundTrip(req *http.Request) (*http.Response, error) {
 func (s *sce) deliver(f *flight, n int) *delivery {
 	r := s.r
 	r.Op()
-	now := time.Now()
+	clock := time.Now()
+	now := clock.Add(s.skew) // the receipt time D states
 	d := &delivery{n: n, marks: append([]mark{}, f.marks...)}
 	if s.senderMark != nil {
 		d.marks = append(d.marks, *s.senderMark)
@@ -522,7 +545,7 @@ func (s *sce) deliver(f *flight, n int) *delivery {
 			d.marks = append(d.marks, mark{class: neutral, kind: "uri_same_after_parse"})
 		}
 	}
-	d.keyAccept, d.keyRefuse, d.keyNote = s.keyExpectation(now)
+	d.keyAccept, d.keyRefuse, d.keyNote = s.keyExpectation(clock, now)
 	var isLocal func(spec.ServerName) bool
 	if s.callback {
 		isLocal = func(n spec.ServerName) bool {
@@ -548,43 +571,61 @@ func (s *sce) deliver(f *flight, n int) *delivery {
 //	        consults says so with validity strictly beyond now;
 //	refuse: under every source available to D, every key O signed with is
 //	        expired / past valid_until_ts / unknown at now.
-func (s *sce) keyExpectation(now time.Time) (acc, refuse bool, note string) {
-	ts := spec.AsTimestamp(now)
+func (s *sce) keyExpectation(clock, at time.Time) (acc, refuse bool, note string) {
+	ts := spec.AsTimestamp(at)
 	ids := s.signed.keyIDs
 	if s.vmode == vLedger {
 		if s.ver.Fail != nil {
 			return false, false, "verifier_error"
 		}
-		any := false
+		anyValid, allExpired := false, true
 		for _, id := range ids {
-			if truthValid(s.O.KeyByID(id), now) {
-				any = true
+			k := s.O.KeyByID(id)
+			if truthValid(k, at) {
+				anyValid = true
+			}
+			if !truthExpired(k, at) {
+				allExpired = false
 			}
 		}
-		if any {
+		switch {
+		case anyValid:
 			return true, false, "ledger_valid"
+		case allExpired:
+			return false, true, "ledger_expired"
 		}
-		return false, true, "ledger_expired"
+		return false, false, "ledger_not_yet_published"
 	}
 	if s.db.fetchErr {
 		return false, false, "db_fetch_error"
 	}
-	any, possible := false, false
+	anyClear, possible := false, false
 	notes := []string{}
 	var fresh map[pair]entry
 	if s.fet.mode == fetchUp {
-		fresh = published(s.O, now)
+		fresh = published(s.O, clock)
 	}
 	for _, id := range ids {
 		p := pair{ServerName: s.O.Name, KeyID: id}
 		k := s.O.KeyByID(id)
 		dbE, inDB := s.db.m[p]
 		frE, inFresh := fresh[p]
-		if (inDB && possiblyValid(dbE, ts)) || (inFresh && possiblyValid(frE, ts)) {
+		if (inDB && possiblyValid(dbE, ts, clock)) || (inFresh && possiblyValid(frE, ts, clock)) {
 			possible = true
 		}
-		if truthValid(k, now) && ((inDB && clearlyValid(dbE, ts) && bytes.Equal(dbE.Key, k.Pub)) || (inFresh && clearlyValid(frE, ts))) {
-			any = true
+		dbClear := inDB && clearlyValid(dbE, ts, clock) && bytes.Equal(dbE.Key, k.Pub)
+		frClear := inFresh && clearlyValid(frE, ts, clock)
+		if truthValid(k, at) {
+			if s.skew == 0 {
+				// the cache is used while it is valid by the clock, otherwise
+				// O's current answer replaces it
+				if dbClear || frClear {
+					anyClear = true
+				}
+			} else if (inDB || inFresh) && (!inDB || dbClear) && (!inFresh || frClear) {
+				// with a skewed `now` argument only unanimity is claimed
+				anyClear = true
+			}
 		}
 		switch {
 		case inDB && dbE.ExpiredTS != 0:
@@ -596,8 +637,12 @@ func (s *sce) keyExpectation(now time.Time) (acc, refuse bool, note string) {
 		default:
 			notes = append(notes, "cache_miss")
 		}
-		if !truthValid(k, now) {
+		if truthExpired(k, at) {
 			notes = append(notes, "rotated")
+		}
+		if (inDB && dbE.ExpiredTS == 0 && ts <= dbE.ValidUntilTS && ts > strictLimit(dbE, clock)) ||
+			(inFresh && frE.ExpiredTS == 0 && ts <= frE.ValidUntilTS && ts > strictLimit(frE, clock)) {
+			notes = append(notes, "beyond_7d_cap")
 		}
 	}
 	switch s.fet.mode {
@@ -609,11 +654,19 @@ func (s *sce) keyExpectation(now time.Time) (acc, refuse bool, note string) {
 	if s.O.ValidFor < 0 {
 		notes = append(notes, "negative_validity")
 	}
+	if s.skew != 0 {
+		notes = append(notes, "now_skewed")
+	}
+	for _, ev := range s.envEvents {
+		if ev == "signed_with_expired_key" {
+			notes = append(notes, ev)
+		}
+	}
 	note = strings.Join(notes, "+")
 	if s.db.storeErr {
 		return false, !possible, note + "+db_store_error"
 	}
-	return any, !possible, note
+	return anyClear, !possible, note
 }
 
 func kindsOf(ms []mark, class int) []string {
@@ -645,11 +698,14 @@ func (s *sce) judge(d *delivery) {
 			r.Fault([]string{"benign:", "neutral:", "fault:"}[m.class] + m.kind)
 		}
 	}
-	if len(d.marks) > 0 || len(s.envEvents) > 0 || strings.Contains(d.keyNote, "stale") || strings.Contains(d.keyNote, "expired") || strings.Contains(d.keyNote, "negative") {
+	if len(d.marks) > 0 || len(s.envEvents) > 0 || strings.Contains(d.keyNote, "stale") || strings.Contains(d.keyNote, "expired") || strings.Contains(d.keyNote, "negative") || s.skew != 0 {
 		r.Nontriv = true
 	}
-	if strings.Contains(d.keyNote, "cache_stale") || strings.Contains(d.keyNote, "negative_validity") {
+	if strings.Contains(d.keyNote, "cache_stale") || strings.Contains(d.keyNote, "negative_validity") || strings.Contains(d.keyNote, "beyond_7d_cap") {
 		r.Fault("key_expire")
+	}
+	if s.skew != 0 {
+		r.Fault("clock_skew")
 	}
 	r.Logf("D#%d verdict: code=%d request_returned=%v faults=%v neutral=%v benign=%v keys=%s(accept=%v refuse=%v) callback_calls=%d db_fetches=%d fetcher_calls=%d",
 		d.n, d.code, d.fr != nil, faults, neutrals, benigns, d.keyNote, d.keyAccept, d.keyRefuse, s.cbCalls, s.db.fetches, s.fet.calls)
@@ -681,7 +737,7 @@ func (s *sce) judge(d *delivery) {
 	switch {
 	case fm != nil:
 		r.Check(!accepted, P, fm.oracle, fm.kind,
-			"request accepted (200) although %s: signed {%s %s origin=%q destination=%q body=%s}", fm.kind, sg.method, sg.uri, sg.origin, sg.dest, string(sg.body))
+			"request accepted (200) although %s: signed {%s %s origin=%q destination=%q body=%q}", fm.kind, sg.method, sg.uri, sg.origin, sg.dest, string(sg.body))
 		if !d.httpLayer {
 			if hasCode(fm.codes, d.code) {
 				r.Probe("refusal_status_as_documented")
@@ -762,7 +818,7 @@ func TestEngine(t *testing.T) {
 		Real: []string{"fclient.NewFederationRequest/SetContent/Sign/HTTPRequest", "fclient.NewFederationClient + WithTransport (DoRequestAndParseResponse, SendTransaction, LookupProfile, GetEvent, ClaimKeys, MakeJoin)", "fclient.VerifyHTTPRequest / ParseAuthorization", "gomatrixserverlib.KeyRing.VerifyJSONs + StrictValiditySignatureCheck", "SignJSON / VerifyJSON / CanonicalJSON", "spec.ParseAndValidateServerName", "net/http request parsing (wire mode)"},
 		Stub: []string{"http.RoundTripper (sim transport: latency, transit transformations, duplicate delivery)", "KeyDatabase (in-memory map, optional errors)", "KeyFetcher (answers O's published keys at the simulated instant; error / empty modes)", "world.Verifier (ledger configuration)", "wall clock (testing/synctest)"},
 		Assumptions: []string{
-			"testing/synctest fake clock (Go 1.26.8); D passes its own clock reading as `now`",
+			"testing/synctest fake clock (Go 1.26.8); D passes its own clock reading as `now`, except in the rare now_skewed configuration (+8 d, +6 d, -1 h) which exercises the 7-day cap of the strict validity rule; there must-accept is claimed only when every source D could consult agrees",
 			"what must be refused is decided from the final transmitted request against O's ledger entry; transformations about which the property text is silent (unquoted parameter values, missing destination parameter, scheme case, parameter order, re-serialised body, Content-Type parameters, stream error after the complete body, URI spelling that net/url maps back to the signed string) only have to satisfy accepted => fields as signed",
 			"key must-refuse = every source D can consult (cache entry, O's answer now) shows the key expired / past valid_until_ts / unknown; key must-accept = key genuinely current in the ledger and a consulted source gives validity strictly beyond now; everything between (e.g. cache still valid but O rotated) is recorded as a probe",
 			"refusal status codes are recorded as probes, not asserted",
